@@ -554,7 +554,7 @@ theorem inv_taskStep (s : State) (k : Nat) (h : Inv s) : Inv (step s (.taskStep 
     | put =>
       have ht := hc.2.2.2
       have hr : rest = [] ∧ P (s.client c) := by
-        cases rest <;> simpa [taskOk, progOk, tailOk] using ht
+        cases rest <;> simp [taskOk, progOk, tailOk] at ht <;> simpa using ht
       obtain ⟨rfl, hP⟩ := hr
       have hpbF : putBack s.kind false = true := by cases s.kind <;> rfl
       have hpbT : putBack s.kind true = false := by cases s.kind <;> rfl
@@ -685,5 +685,18 @@ theorem lease_never_dirty (k : Kind) (mc mr : Nat) (prog : List DStep) (h : prog
       (s.client c).netOpen = true ∧ (s.client c).closed = false)) := by
   intro hs
   exact lease_clean_of_inv _ (inv_run k mc mr prog h ls) d c s' hs
+
+/-! ### the request ledger: program class (the exactness theorem over this class is not proved here) -/
+/-- what the tasks in progress still owe of one kind of decrement -/
+def owed (st : DStep) (ts : List Task) : Nat := (ts.map (fun t => t.2.count st)).sum
+def noDecs (p : List DStep) : Bool := p.all (fun st => st != .decHost && st != .decCluster && st != .decRes)
+/-- no decrement is skipped by an early return after the close -/
+def retSafe : List DStep → Bool
+  | [] => true
+  | .closeIf true :: r => noDecs r && retSafe r
+  | .poolEvent true :: r => noDecs r && retSafe r
+  | _ :: r => retSafe r
+def ledgerOk (k : Kind) (p : List DStep) : Bool :=
+  retSafe p && p.count .decHost == 1 && p.count .decCluster == 1 && p.count .decRes == 1 && takeCodes k == [10, 11, 12]
 
 end MosnVerif.Lemmas.PoolWin
